@@ -110,7 +110,7 @@ PROPS['C09'] = dict(
     trusted_base=['models Mkdb/Model/Scan.lean, Mkdb/Model/Parse.lean hand-written from sql/go_scanner.go, sql/scanner.go, sql/parser.go'],
 )
 PROPS['C10'] = dict(
-    lean=['Mkdb.Props.C10'],
+    lean=['Mkdb.Props.C10', 'Mkdb.Props.C10Text'],
     facts=['sql.tokens', 'const.sql.*', 'panics.sql.*'],
     runs=[dict(cmd='sql', proto='sql', timeout=1200)],
     search_seeds=1,
